@@ -60,9 +60,9 @@ impl Cfg {
             n_rand_raw: 512,
             n_rand_val: 32,
             n_twin_raws: 8,
-            hist_count: 400,
-            hist_len: 256,
-            long_hist_len: 100_000,
+            hist_count: 120,
+            hist_len: 128,
+            long_hist_len: 20_000,
             judge_panics_only: false,
             trace: false,
             only_case: None,
